@@ -2,7 +2,9 @@ package vc
 
 import (
 	"fmt"
+	"go/token"
 	"go/types"
+	"sort"
 	"strings"
 
 	"golang.org/x/tools/go/ssa"
@@ -218,16 +220,119 @@ func (e *Engine) guardObligations(want map[string]bool) ([]*Obligation, error) {
 		if !all && len(fields) != len(g.Fields) {
 			return nil, fmt.Errorf("CONTRACT-STALE guarded_by: some of the fields %v not found in %s", g.Fields, g.Type)
 		}
+		overwrites := map[string][]string{}
 		for _, sp := range e.SSAPkgs {
 			if !e.inModule(sp.Pkg) {
 				continue
 			}
 			for _, fn := range allFunctions(sp) {
 				out = append(out, e.guardFunc(fn, st, fields, g)...)
+				e.elemOverwrites(fn, st, fields, overwrites)
 			}
+		}
+		// readers copy the slice header under the lock and then read the elements without it: the elements of a
+		// published slice must never be overwritten (append-only), anywhere in the module
+		var idx []int
+		for i := range fields {
+			idx = append(idx, i)
+		}
+		sort.Ints(idx)
+		for _, i := range idx {
+			if _, ok := u.Field(i).Type().Underlying().(*types.Slice); !ok {
+				continue
+			}
+			sites := overwrites[fields[i]]
+			msg := ""
+			if len(sites) > 0 {
+				msg = fmt.Sprintf("elements of the published slice %s.%s are overwritten in place at %s", g.Type, fields[i], strings.Join(sites, ", "))
+			}
+			out = append(out, &Obligation{Name: fmt.Sprintf("guard:%s.%s:published-elements-never-overwritten", g.Type, fields[i]), Func: g.Type, Kind: "guard", Props: g.Props,
+				Structu: true, StructOK: len(sites) == 0, StructMsg: msg, Src: fmt.Sprintf("guarded_by %s.%s", g.Type, g.Lock)})
 		}
 	}
 	return out, nil
+}
+
+// elemOverwrites records the places where fn stores into (or copies over) elements of a slice that was loaded from
+// one of the guarded fields: element stores x[i] = v, copy(x, ..), and append(x[:k], ..) on a re-sliced prefix.
+func (e *Engine) elemOverwrites(fn *ssa.Function, st types.Type, fields map[int]string, into map[string][]string) {
+	if fn.Synthetic != "" {
+		return
+	}
+	var from func(v ssa.Value, depth int) (string, bool)
+	from = func(v ssa.Value, depth int) (string, bool) {
+		if depth > 8 {
+			return "", false
+		}
+		switch v := v.(type) {
+		case *ssa.UnOp:
+			if v.Op != token.MUL {
+				return "", false
+			}
+			if fa, ok := v.X.(*ssa.FieldAddr); ok {
+				if pt, ok := fa.X.Type().Underlying().(*types.Pointer); ok && types.Identical(pt.Elem(), st) {
+					if n, ok := fields[fa.Field]; ok {
+						return n, true
+					}
+				}
+			}
+			// naive-form SSA keeps locals in cells: look through the values stored into the cell
+			if al, ok := v.X.(*ssa.Alloc); ok && al.Referrers() != nil {
+				for _, r := range *al.Referrers() {
+					if stv, ok := r.(*ssa.Store); ok && stv.Addr == al {
+						if n, ok := from(stv.Val, depth+1); ok {
+							return n, true
+						}
+					}
+				}
+			}
+		case *ssa.Slice:
+			return from(v.X, depth+1)
+		case *ssa.ChangeType:
+			return from(v.X, depth+1)
+		case *ssa.Phi:
+			for _, ed := range v.Edges {
+				if n, ok := from(ed, depth+1); ok {
+					return n, true
+				}
+			}
+		}
+		return "", false
+	}
+	site := func(pos token.Pos, what string) string {
+		if pos.IsValid() {
+			p := e.Fset.Position(pos)
+			return fmt.Sprintf("%s:%d (%s)", shortFile(p.Filename), p.Line, what)
+		}
+		return funcDisplayName(fn) + " (" + what + ")"
+	}
+	for _, b := range fn.Blocks {
+		for _, instr := range b.Instrs {
+			switch instr := instr.(type) {
+			case *ssa.Store:
+				if ia, ok := instr.Addr.(*ssa.IndexAddr); ok {
+					if n, ok := from(ia.X, 0); ok {
+						into[n] = append(into[n], site(instr.Pos(), "element store"))
+					}
+				}
+			case *ssa.Call:
+				if bi, ok := instr.Call.Value.(*ssa.Builtin); ok && len(instr.Call.Args) > 0 {
+					switch bi.Name() {
+					case "copy":
+						if n, ok := from(instr.Call.Args[0], 0); ok {
+							into[n] = append(into[n], site(instr.Pos(), "copy"))
+						}
+					case "append":
+						if sl, ok := instr.Call.Args[0].(*ssa.Slice); ok {
+							if n, ok := from(sl, 0); ok {
+								into[n] = append(into[n], site(instr.Pos(), "append to a re-sliced prefix"))
+							}
+						}
+					}
+				}
+			}
+		}
+	}
 }
 
 func allFunctions(p *ssa.Package) []*ssa.Function {
